@@ -176,6 +176,25 @@ def replay_walk(walk):
                 if abs(got - tot - extra) > 1e-7 * max(1.0, abs(got)):
                     viol(k, "cost of the multi-fit is not the sum of the member costs", dict(multi=got, members=tot, own_constraints=extra))
                     return False
+        elif o in ("gof", "chi2p") and st["ready"] and all(kk == "chi2" for kk in first["kind"]):
+            from scipy import stats
+            shared_now = any(s.startswith("s") for s in st["srcs"])
+            member_cons = any(kk > 0 and f != 0 for f, kk in st["cons"])
+            if not (shared_now and member_cons):
+                exp, V = expected_cost(first, st, pv, fits)
+                chi2_val = exp - float(np.linalg.slogdet(V)[1])          # the cost without its determinant term
+                if o == "gof":
+                    got = multi.goodness_of_fit
+                    if got is None or abs(float(got) - chi2_val) > 1e-7 * max(1.0, abs(chi2_val)):
+                        viol(k, "goodness of fit of the multi-fit differs from cost minus saturated cost", dict(expected=chi2_val, actual=got))
+                        return False
+                else:
+                    got = multi.chi2_probability
+                    e = float(stats.chi2.sf(chi2_val, st["ndf"]))
+                    if got is None or abs(float(got) - e) > 1e-7 * max(1e-12, e) + 1e-15:
+                        viol(k, "chi2 probability of the multi-fit differs from the chi2 upper tail of the cost without determinant term",
+                             dict(expected=e, actual=got, chi2=chi2_val, ndf=st["ndf"], sources=sorted(st["srcs"])))
+                        return False
         elif o == "total_cov" and st["ready"]:
             exp, V = expected_cost(first, st, pv, fits)
             chi2 = [i + 1 for i, kk in enumerate(first["kind"]) if kk == "chi2"]
@@ -259,7 +278,7 @@ def replay_walk(walk):
                     viol(k, "Mirrored: fixed parameters of member %d after %s" % (i + 1, nm), dict(expected=expf, actual=fx))
                     return issues
         last = e
-    for o in ("values", "ndf", "cost", "total_cov", "member_results"):
+    for o in ("values", "ndf", "cost", "gof", "chi2p", "total_cov", "member_results"):
         if not check(len(walk["steps"]) - 1, o, last):
             break
     return issues
